@@ -17,11 +17,14 @@ import AmVerif.Proofs.SyncNetTie
     (2) no quiet non-converged configuration (deadlock freedom)         — proved: `C20_quiescent_converged`;
     (3) a quiet configuration stays quiet                               — proved: `C20_quiescent_stable`;
     (4) progress: within `bound c` rounds a quiescent configuration is reached
-                                                                        — NOT proved (see the end of the file).
+                                                                        — proved, for arbitrary `fp`, in
+                                                                          `AmVerif.Props.C20Progress`
+                                                                          (`C20_progress`, bound = missing + 4),
+                                                                          which also states the combination
+                                                                          `C20_converges_and_goes_quiet`.
   (1)–(3) say: whenever the exchange goes quiet — in whatever interleaving, after whatever Bloom
-  false positives — both peers hold the same heads and the same changes, and it stays so.  What is
-  missing for the full statement is only that it does go quiet within the bound; that part is
-  covered by the direct oracle of the `sync` correspondence engine on the real code.
+  false positives — both peers hold the same heads and the same changes, and it stays so; (4) says
+  that it does go quiet within the bound.
 -/
 namespace AmVerif.Props.C20
 open AmVerif AmVerif.Sync
@@ -176,23 +179,17 @@ example : Converged (rounds Example.fpAll 4 Example.start) :=
   C20_quiescent_converged _ ((Reachable.init _ Example.start_initial).rounds 4) (by decide)
 
 /-
-  ### (4) progress — full-strength statement, NOT proved
+  ### (4) progress — see `AmVerif.Props.C20Progress`
 
     theorem C20_progress (fp) {c} (h : Reachable fp c) :
-        ∃ n, n ≤ 2 * (c.docA.applied ++ c.docB.applied).eraseDups.length + 4 ∧
-             Quiescent fp (rounds fp n c)
+        ∃ n, n ≤ bound c ∧ Quiescent fp (rounds fp n c)        -- bound c = missing c + 4
 
-  with the measure μ(c) = (|applied_A Δ applied_B| + |queue_A| + |queue_B|, number of missing
-  ancestors of their_heads, handshake phase) decreasing lexicographically in every non-quiet round.
-  What is missing: the analysis of `hashesToSend` (Bloom filter has no false negatives — C23 —
-  so every change the peer lacks and that is not a forced/real false positive is offered; a
-  withheld change is a head or an ancestor of a head of the sender, shows up in `missing_deps_from
-  (their_heads)` of the receiver and is requested through `need` one generation per round), and
-  the bookkeeping of `sent_hashes`.  None of it is needed for (1)–(3).
-  Evidence in its place (validation, not proof): the `q` step of the `sync` engine runs the real
-  code round-robin until a quiet round and fails if the bound is exceeded; over 5 500 random
-  schedules (fp ∈ {0, 5 %, 50 %}) the maximum was 15 rounds with bound ≥ 2·|changes|+16, and the
-  model reproduces every one of these rounds line by line.
+  is proved there for every `fp` and every reachable configuration (helper lemmas in
+  `AmVerif.Proofs.SyncProgress*`), with `missing c` = the changes applied at one peer that have not
+  arrived (applied or queued) at the other, so `bound c ≤ |applied_A| + |applied_B| + 4
+  ≤ 2·|applied_A ∪ applied_B| + 4`.  The `sync` engine checks the same bound on the real code
+  (`! C20 sig=round-bound-exceeded`) in its pure two-peer sessions and compares the value of
+  `missing` between implementation and model (step `b`).
 -/
 
 end AmVerif.Props.C20
